@@ -146,6 +146,10 @@ class Monitor:
             if rec is None:
                 # the store did not create its token with env.event(): register it now
                 rec = sh.issue(tok, ctx.side, ctx.prio, ctx.filt)
+                ctx.rec = rec
+                sh.late_mode = True
+                if ctx.filt is None and ctx.side == "get" and sh.kind == "filter":
+                    rec.filter = getattr(tok, "filter", None)     # the store's default filter travels on the token
                 if tok.triggered:
                     sh.on_grant(rec)
                 self.counters["late_token_registration"] += 1
